@@ -859,10 +859,14 @@ class BuiltinMixin:
 
     # str (values mostly opaque)
     def m_str_upper(self, obj, args, kwargs, line):
-        return StrV(s=obj.s.upper()) if obj.s is not None else self.opaque_str("upper")
+        if obj.s is not None:
+            return StrV(s=obj.s.upper())
+        return StrV(t=z3.Function("str_upper", StrSort, StrSort)(obj.t))
 
     def m_str_lower(self, obj, args, kwargs, line):
-        return StrV(s=obj.s.lower()) if obj.s is not None else self.opaque_str("lower")
+        if obj.s is not None:
+            return StrV(s=obj.s.lower())
+        return StrV(t=z3.Function("str_lower", StrSort, StrSort)(obj.t))
 
     def m_str_join(self, obj, args, kwargs, line):
         return self.opaque_str("join")
